@@ -269,7 +269,26 @@ pub fn read_diagram(text: &str) -> Result<(String, Vec<char>), String> {
     Ok((lines[0].to_string(), cells))
 }
 
-pub fn c10_views(ctx: &mut Ctx, gs: &GameState, after_action: bool) {
+pub struct Sink<'s> {
+    pub stats: &'s mut Stats,
+    pub out: Option<(String, String, String)>,
+}
+impl<'s> Sink<'s> {
+    fn fail(&mut self, what: &str, observed: String, expected: String) {
+        if self.out.is_none() {
+            self.out = Some((what.to_string(), observed, expected));
+        }
+    }
+}
+
+/// C10 view-agreement invariants on one state; returns the first disagreement found.
+pub fn c10_views(stats: &mut Stats, gs: &GameState, after_action: bool) -> Option<(String, String, String)> {
+    let mut sink = Sink { stats, out: None };
+    c10_views_inner(&mut sink, gs, after_action);
+    sink.out
+}
+
+fn c10_views_inner(ctx: &mut Sink, gs: &GameState, after_action: bool) {
     let pb = gs.piece_board();
     let r = raw(pb);
     let types = &r[2..8];
@@ -642,7 +661,10 @@ pub fn visit(ctx: &mut Ctx, node: &Node) -> Vec<Successor> {
 
     // ----- C10 -----
     if ctx.on(C10) {
-        c10_views(ctx, gs, !ctx.path.is_empty());
+        let after = !ctx.path.is_empty();
+        if let Some((w, o, e)) = c10_views(&mut ctx.stats, gs, after) {
+            ctx.fail(&w, o, e);
+        }
     }
 
     // ----- successors, edge oracles -----
